@@ -160,3 +160,19 @@ def coefs_obl(order, core, mult='4.0', onehot=1000, nc=3, np=2, timeout=400, tie
                desc='prepare_poly_fir_coefs (cr.c): table(gain m) == m * table(gain 1) entry by entry, interpolation order %d, core layout %d' % (order, core),
                bounds='%d taps x %d phases; basis input: one tap at a symbolic position with a symbolic integer value in +-%d, others 0 (the table is linear in the taps); gain %s' % (nc, np, onehot, mult),
                stubs=['table storage from a static pool (mem->calloc)'], funcs=['cr.c:prepare_poly_fir_coefs'])
+
+
+VR_OPS = {0: 'slew_setup', 1: 'poly_fir_u_step', 2: 'poly_fir_d_step'}
+
+
+def vr_obl(op, slew=None, difbits=20, timeout=400, tiers=('quick', 'thorough')):
+    defs = ['-DVF_OP=%d' % op, '-DVF_DIFBITS=%d' % difbits]
+    name = 'vr_%s' % VR_OPS[op]
+    if slew is not None:
+        defs.append('-DVF_SLEW=%s' % slew); name += '_len%s_d%d' % (str(slew).rstrip('u'), difbits)
+    return Obl(name=name, src='vr_step.c', defs=defs, unwind=5, timeout=timeout, ndebug=False, extra=KISSAT if op == 0 else [], tiers=tiers,
+               desc='vr32.c %s' % VR_OPS[op],
+               bounds=('current step and target below 2^44 (ratios up to 4096 in 32.32) with |target - step| < 2^%d, slew length == %s' % (difbits, slew)) if op == 0 else 'any 32.32 position/step, |step_step| < 2^24, <= 3 output frames, <= 8 input samples',
+               stubs=['coefficient tables zero (data only)'],
+               ignore_props=[r'set_step_step:\d+ arithmetic overflow on signed type conversion in \(signed int\)dif'],
+               funcs=['vr32.c:set_step_step', 'vr32.c:set_step', 'vr32.c:poly_fir_u', 'vr32.c:poly_fir_d'])
